@@ -46,6 +46,11 @@ impl Coords for Color3f {
     fn dcomps(d: &Color3f) -> Vec<f32> { vec![d.r(), d.g(), d.b()] }
 }
 
+impl Coords for re::math::angle::Angle {
+    fn make(c: &[f32]) -> Self { re::math::angle::rads(c[0]) }
+    fn comps(&self) -> Vec<f32> { vec![self.to_rads()] }
+    fn dcomps(d: &re::math::angle::Angle) -> Vec<f32> { vec![d.to_rads()] }
+}
 impl Coords for Color4f {
     fn make(c: &[f32]) -> Self { rgba(c[0], c[1], c[2], c[3]) }
     fn comps(&self) -> Vec<f32> { self.0.to_vec() }
@@ -143,7 +148,48 @@ fn run<T: Coords>(case: &Value) -> Option<Vec<(&'static str, Value)>> {
     })
 }
 
+/// A spline of 2^lg segments (millions): parameters j / 2^lg and (2j + 1) / 2^(lg+1) are exact in f32, so the
+/// spline must return control point 3j EXACTLY at the first and the value of the j-th cubic at one half
+/// (computed by the library's own CubicBezier on the four control points) at the second.
+fn exec_bigspline(case: &Value) -> Value {
+    let mut e = case.clone();
+    let lg = gi(case, "lg") as u32;
+    let n = 1usize << lg;
+    let joints: Vec<usize> = case["joints"].as_array().unwrap().iter().map(|j| j.as_u64().unwrap() as usize).collect();
+    let r = guard(|| {
+        let c: Vec<f32> = (0..3 * n + 1).map(|i| ((i * 7) % 1021) as f32).collect();
+        let sp = BezierSpline::new(&c);
+        let (mut missj, mut missm) = (0usize, 0usize);
+        for &j in &joints {
+            let t = j as f32 / n as f32;
+            if sp.eval(t) != c[3 * j] {
+                missj += 1;
+            }
+            if j < n {
+                let tm = (2 * j + 1) as f32 / (2 * n) as f32;
+                let cb = CubicBezier([c[3 * j], c[3 * j + 1], c[3 * j + 2], c[3 * j + 3]]);
+                if sp.eval(tm) != cb.fast_eval(0.5) || sp.tangent(tm) != cb.tangent(0.5) {
+                    missm += 1;
+                }
+            }
+        }
+        let ends = (sp.eval(0.0) == c[0] && sp.eval(1.0) == c[3 * n]) as u8;
+        (missj, missm, ends)
+    });
+    let o = e.as_object_mut().unwrap();
+    let (p, mj, mm, ends) = match r { Some((a, b, c)) => (0, a, b, c), None => (1, 0, 0, 0) };
+    o.insert("panic".into(), json!(p));
+    o.insert("missj".into(), json!(mj));
+    o.insert("missm".into(), json!(mm));
+    o.insert("ends".into(), json!(ends));
+    o.insert("njoint".into(), json!(joints.len()));
+    e
+}
+
 pub fn exec(case: &Value) -> Value {
+    if gs(case, "op") == "bigspline" {
+        return exec_bigspline(case);
+    }
     if gs(case, "op") == "smooth" {
         let t = gi(case, "kk") as f32 / 16.0;
         let sc = |x: f32| ((x as f64) * SC).round() as i64;
@@ -169,6 +215,7 @@ pub fn exec(case: &Value) -> Value {
         "vec3" => run::<Vec3>(case),
         "col3" => run::<Color3f>(case),
         "col4" => run::<Color4f>(case),
+        "ang" => run::<re::math::angle::Angle>(case),
         _ => run::<f32>(case),
     };
     let mut e = case.clone();
@@ -204,7 +251,21 @@ pub fn gen(args: &Args, out: &mut dyn Write) {
     let thorough = args.tier == "thorough";
     let n = args.n.unwrap_or(if thorough { 400_000 } else { 6_000 });
     let mut rng = Rng::new(args.seed ^ 0x5B11E);
-    let tys = [("f32", 1usize), ("vec2", 2), ("pt2", 2), ("vec3", 3), ("col3", 3), ("col4", 4)];
+    // millions of segments: joints around 2^24 / 3 control points and further up
+    {
+        let lg = 23u32;
+        let mut joints: Vec<u64> = vec![1, 2, 3, 1000, 4_194_303, 4_194_305, (1 << lg) - 1, 1 << lg];
+        for base in [5_592_400u64, 5_592_405, 6_000_001, 7_340_033, 8_000_000] {
+            for d in 0..8 {
+                joints.push(base + d);
+            }
+        }
+        for _ in 0..(if thorough { 2000 } else { 100 }) {
+            joints.push(rng.below(1 << lg));
+        }
+        writeln!(out, "{}", json!({"k": format!("big{}", args.seed), "op": "bigspline", "ty": "f32", "lg": lg, "joints": joints})).unwrap();
+    }
+    let tys = [("f32", 1usize), ("vec2", 2), ("pt2", 2), ("vec3", 3), ("col3", 3), ("col4", 4), ("ang", 1)];
     for i in 0..n {
         let (ty, nc) = tys[i % tys.len()];
         // control points over several magnitudes, non-dyadic-friendly values included
